@@ -122,6 +122,29 @@ impl Expr {
         self.run_nested(constants, &mut Evaluation::default())
     }
 
+    /// The first symbol of the expression that stands for an expression not evaluated yet
+    fn unevaluated(&self, constants: &dyn Context, open: &Evaluation) -> Option<(String, Expr)> {
+        match self {
+            Expr::Ident(ident) => match constants.get_expr(ident) {
+                Some(Expr::Const(_)) | None => None,
+                Some(expr) => {
+                    if open.known.contains_key(&ident.to_lowercase()) {
+                        None
+                    } else {
+                        Some((ident.clone(), expr))
+                    }
+                }
+            },
+            Expr::Const(_) => None,
+            Expr::Func(_, argument) => argument.unevaluated(constants, open),
+            Expr::Binary(binary) => binary
+                .left
+                .unevaluated(constants, open)
+                .or_else(|| binary.right.unevaluated(constants, open)),
+            Expr::Unary(unary) => unary.expr.unevaluated(constants, open),
+        }
+    }
+
     /// Evaluates the expression within the evaluation `open`
     fn run_nested(
         &self,
@@ -139,13 +162,40 @@ impl Expr {
                     if open.names.contains(&name) {
                         return Err(ExprRunError::RecursiveDefinition(ident.clone()));
                     }
+                    // The definitions this one is built on are evaluated first, innermost
+                    // first and from a list, so that a long chain of definitions does not
+                    // become a deep recursion
+                    let base = open.names.len();
+                    let mut pending = vec![expr];
                     open.names.push(name);
-                    let value = expr.run_nested(constants, open);
-                    let name = open.names.pop();
-                    if let (Ok(value), Some(name)) = (&value, name) {
-                        open.known.insert(name, *value);
+                    loop {
+                        let current = &pending[pending.len() - 1];
+                        if let Some((ident, expr)) = current.unevaluated(constants, open) {
+                            let name = ident.to_lowercase();
+                            if open.names.contains(&name) {
+                                open.names.truncate(base);
+                                return Err(ExprRunError::RecursiveDefinition(ident));
+                            }
+                            open.names.push(name);
+                            pending.push(expr);
+                            continue;
+                        }
+                        match current.run_nested(constants, open) {
+                            Ok(value) => {
+                                pending.pop();
+                                if let Some(name) = open.names.pop() {
+                                    open.known.insert(name, value);
+                                }
+                                if pending.is_empty() {
+                                    return Ok(value);
+                                }
+                            }
+                            Err(err) => {
+                                open.names.truncate(base);
+                                return Err(err);
+                            }
+                        }
                     }
-                    value
                 }
                 None => Err(ExprRunError::MissingIdentifier(ident.clone())),
             },
